@@ -357,7 +357,7 @@ class Gen:
 # ------------------------------------------------------------------------------------------
 FAULT_KINDS = ["non-procedure", "arity", "unbound-ref", "unbound-set", "type", "vector-index", "literal-vector",
                "division-by-zero"]
-FAULT_CONTEXTS = ["direct", "tail", "apply", "library", "derived"]
+FAULT_CONTEXTS = ["direct", "tail", "apply", "library", "derived", "self-tail"]
 EXPECTED_KIND = {
     "non-procedure": "TypeMisMatch", "arity": "ArgumentMissMatch", "unbound-ref": "UnboundedSymbol",
     "unbound-set": "UnboundedSymbol", "type": "TypeMisMatch", "vector-index": "VectorIndexOutOfBounds",
@@ -397,9 +397,25 @@ def fault_expr(rng, kind):
     raise ValueError(kind)
 
 
-def in_context(rng, context, fault, k):
+def in_context(rng, context, fault, k, kind=None):
     """wrap the faulting expression; returns (definitions needed before, the faulting form)"""
     pre = []
+    if context == "self-tail":
+        # the fault happens after the procedure has re-entered itself by tail calls; for a wrong number of
+        # arguments the faulty call IS the self tail call
+        g = "selfg%d" % k
+        if kind == "arity" and rng.random() < 0.75:
+            shape, call = rng.choice([
+                ("(define (%s n) (if (= n 0) 'done (%s (- n 1) 'extra)))", "(%s 2)"),
+                ("(define (%s n m) (if (= n 0) 'done (%s (- n 1))))", "(%s 2 0)"),
+                ("(define (%s n) (if (< n 2) (%s n n) (%s (- n 1))))", "(%s 3)"),
+                ("(define (%s n . r) (if (= n 0) (%s) (%s (- n 1) 1 2)))", "(%s 2)"),
+                ("(define %s (lambda (n) (cond ((= n 0) 'done) (else (%s)))))", "(%s 1)"),
+            ])
+            pre.append(shape % ((g,) * shape.count("%s")))
+            return pre, call % g
+        pre.append("(define (%s n) (if (= n 0) %s (%s (- n 1))))" % (g, fault, g))
+        return pre, "(%s %d)" % (g, rng.randint(1, 4))
     wrapped = rng.choice([fault, "(+ 1 %s)" % fault, "(list 1 %s 3)" % fault, "(if #t %s 0)" % fault])
     if context == "direct":
         return pre, wrapped
@@ -432,7 +448,7 @@ def fault_program(rng, kind, context, k=0, nbefore=3, nafter=2):
     forms.append("(define counter 0)")
     forms.append("(define cell (vector 0 0))")
     fault = fault_expr(rng, kind)
-    pre, form = in_context(rng, context, fault, k)
+    pre, form = in_context(rng, context, fault, k, kind)
     forms.extend(pre)
     g.tick_id += 1
     effect = rng.choice(["(set! counter (+ counter 1))", "(vector-set! cell 0 (+ 1 (vector-ref cell 0)))",
@@ -660,6 +676,75 @@ def loop_closure_program(rng):
     return forms
 
 
+def evaluation_position_program(rng):
+    """procedures whose body is a (nested) conditional in tail position with a ticking test, every kind of branch
+    (constant, variable, quoted datum, call, nested conditional, one-armed), optional ticking expressions before it;
+    called directly, as an operand, through apply, from another procedure's tail call and from a thunk. Every operand
+    and every test must be evaluated exactly once, in order (tick trace), whatever position it is in."""
+    tid = [0]
+
+    def t(s):
+        tid[0] += 1
+        return "(tick %d %s)" % (tid[0], s)
+
+    def test():
+        return rng.choice([t("#t"), t("#f"), "(< %s %s)" % (t("a"), t("b")), "(not %s)" % t("(= a b)"), t("(< a b)"),
+                           "(bump)", "(< (bump) 3)"])
+
+    def leaf():
+        return rng.choice(["a", "b", "7", "'sym", "'(1 2)", "\"s\"", "#t", "count", "#\\x"])
+
+    def branch(d):
+        k = rng.random()
+        if d > 0 and k < 0.3:
+            return "(if %s %s %s)" % (test(), branch(d - 1), branch(d - 1))
+        if d > 0 and k < 0.36:
+            return "(if %s %s)" % (test(), branch(d - 1))
+        if k < 0.48:
+            return "(+ %s %s)" % (t("a"), t("b"))
+        if k < 0.56:
+            return "(g %s)" % t("b")
+        return leaf()
+
+    forms = ["(define count 0)", "(define (bump) (set! count (+ count 1)) count)",
+             "(define (g x) (if %s x 'neg))" % rng.choice([t("(< 0 x)"), "(< 0 %s)" % t("x")])]
+    pre = rng.choice(["", "", t("a") + " ", "(define c %s) " % t("(+ a 1)"), "(bump) "])
+    rest = rng.random() < 0.25
+    body = "(if %s %s %s)" % (test(), branch(2), branch(2)) if rng.random() < 0.85 else "(if %s %s)" % (test(), branch(2))
+    if rest:
+        forms.append("(define (f a . r) (define b (if (null? r) 0 (car r))) %s%s)" % (pre, body))
+    elif rng.random() < 0.5:
+        forms.append("(define (f a b) %s%s)" % (pre, body))
+    else:
+        forms.append("(define f (lambda (a b) %s%s))" % (pre, body))
+    forms.append("(define (h a b) (f b a))")
+    calls = ["(f 1 2)", "(f 2 1)", "(f 3 3)", "(apply f '(1 2))", "(apply f 2 '(1))", "(list (f 1 2) (f 2 1))",
+             "((lambda () (f 2 2)))", "(h 1 2)", "(h 5 0)", "(if (f 0 1) 'yes 'no)", "(g (f 4 2))"]
+    for c in rng.sample(calls, rng.randint(3, 6)):
+        forms.append(c)
+        if rng.random() < 0.4:
+            forms.append("count")
+    forms.append("count")
+    return forms
+
+
+def closure_chain_program(rng):
+    """a loop in which every round tail-calls a NEW closure made from the same lambda expression; what the closures
+    capture changes from round to round and decides the result"""
+    n = rng.randint(2, 9)
+    ctx = rng.choice(["(if (= n 0) acc %s)", "(if (< 0 n) %s acc)", "(cond ((= n 0) acc) (else %s))", "(if (= n 0) acc (and #t %s))"])
+    k = rng.randint(1, 4)
+    forms = ["(define (make-loop step) (lambda (n acc) %s))" % (ctx % "((make-loop (+ step %d)) (- n 1) (+ acc step))" % k),
+             "((make-loop 1) %d 0)" % n, "((make-loop %d) %d 100)" % (rng.randint(2, 5), n)]
+    if rng.random() < 0.5:
+        forms.append("(define (walk tag) (lambda (l) (if (null? l) '() (cons (list tag (car l)) ((walk (car l)) (cdr l))))))")
+        forms.append("((walk 'start) '(a b c d))")
+    if rng.random() < 0.5:
+        forms.append("(define (pick sel) (lambda (x y . r) (if (null? r) (sel x y) (apply (pick (if (eqv? sel min) max min)) (sel x y) r))))")
+        forms.append("((pick min) 5 3 9 1 7)")
+    return forms
+
+
 def forward_reference_program(rng):
     """a procedure body whose FIRST internal definition is initialised by calling a lambda created on the spot; the
     closure it returns refers to internal definitions made later in the same body (legal: it is called only after
@@ -706,7 +791,8 @@ TAIL_CONTEXTS = {
     "apply": "(apply (lambda () %s) '())",
 }
 LOOP_SHAPES = ["self", "mutual2", "mutual3", "higher-order", "variadic", "closure-returned",
-               "operator-call", "operator-if", "operator-car", "internal-define", "internal-helper", "body-effect"]
+               "operator-call", "operator-if", "operator-car", "internal-define", "internal-helper", "body-effect",
+               "closure-chain", "closure-chain-internal", "closure-chain-acc"]
 
 
 def loop_program(shape, contexts):
@@ -745,6 +831,13 @@ def loop_program(shape, contexts):
                 "(define (lb i n) (if (< i n) %s i))" % wrap("((if #t la lb) (+ i 1) n)")], "(la 0 %d)"
     if shape == "operator-car":
         return ["(define (loop fs i n) (if (< i n) %s i))" % wrap("((car fs) fs (+ i 1) n)")], "(loop (list loop) 0 %d)"
+    # every round runs a NEW closure of the same lambda expression; the loop variable lives in the closure
+    if shape == "closure-chain":
+        return ["(define (mk k) (lambda (n) (if (< k n) %s k)))" % wrap("((mk (+ k 1)) n)")], "((mk 0) %d)"
+    if shape == "closure-chain-internal":
+        return ["(define (mk k) (define (l n) (if (< k n) %s k)) l)" % wrap("((mk (+ k 1)) n)")], "((mk 0) %d)"
+    if shape == "closure-chain-acc":
+        return ["(define (mk step) (lambda (i n) (if (< i n) %s i)))" % wrap("((mk (- 3 step)) (+ i (- step (- step 1))) n)")], "((mk 1) 0 %d)"
     raise ValueError(shape)
 
 
@@ -849,6 +942,9 @@ class MacroGen:
         if k < 0.5:
             # a free symbol that other rules may use as a pattern variable
             return r.choice(MACRO_VARS)
+        if k < 0.58:
+            # symbols that mean something in PATTERNS (wildcard, literals) are plain symbols in a template
+            return r.choice(["_", "_", "else", "=>", "to"])
         if depth <= 0:
             return r.choice(plain) if plain else r.choice(MACRO_DATA)
         items = []
@@ -963,6 +1059,38 @@ def derived_templates():
         ("when", "(if (when (< {0} 9) {1} {2}) 1 0)"),
         ("unless", "(if (unless (< 9 {0}) {1} {2}) 1 0)"),
     ]
+
+
+LOOKALIKES = ['"=>"', '"else"', "'else", "'=>", '"..."', '"_"', "#\\=", "'(else)", "(quote =>)"]
+
+
+def lookalike_forms(rng, quick):
+    """every derived form with one sub-form position holding a datum that is SPELLED like a keyword of the templates
+    (a string "=>" or "else", a quoted symbol); it is data, the clause keeps its ordinary meaning"""
+    out = []
+    tid = [0]
+
+    def tick(v):
+        tid[0] += 1
+        return "(tick %d %d)" % (tid[0], v)
+
+    for name, t in derived_templates():
+        nh = t.count("{")
+        for pos in range(nh):
+            for la in LOOKALIKES:
+                tid[0] = 0
+                holes = [tick(rng.choice([1, 2, 3])) for _ in range(nh)]
+                holes[pos] = la
+                out.append(("%s/%d/%s" % (name, pos, la), t.format(*holes)))
+    extra = ['(cond (#t "=>" %s))', '(cond (#f 1) ((+ 1 1) "=>" %s) (else 0))', '(cond (#f 1) (else "=>" %s))',
+             '(case (+ 1 1) ((1 2) "=>" %s) (else 0))', '(case 7 ((1 2) 0) (else "=>" %s))', '(case 7 ((1 2) 0) (else "else" %s))',
+             "(cond ((quote else) %s 1) (else 2))", "(case (quote else) ((else) %s 1) (else 2))", "(case (quote =>) ((=> x) %s 1) (else 2))"]
+    for e in extra:
+        for body in ["(lambda (v) (list v 'called))", "car", "(tick 1 5)", "'sym"]:
+            out.append(("extra", e % body))
+    if quick:
+        out = rng.sample(out, 200)
+    return out
 
 
 def nested_pairs(rng, quick):
@@ -1199,7 +1327,8 @@ class DatumGen:
 # ------------------------------------------------------------------------------------------
 # C14 / C13: library graphs
 # ------------------------------------------------------------------------------------------
-NODE_KINDS = ["healthy", "missing", "faulting", "faulting-early", "wrong-name", "broken", "not-utf8"]
+NODE_KINDS = ["healthy", "missing", "faulting", "faulting-early", "wrong-name", "broken", "not-utf8",
+              "second-in-file", "after-other-forms", "defined-twice"]
 
 
 def library_text(name, imports, kind):
@@ -1208,6 +1337,16 @@ def library_text(name, imports, kind):
     imports_decl = "(import (scheme base)%s)" % ((" " + imp) if imp else "")
     if kind == "healthy":
         return "(define-library (%s) (export %s-v) %s (begin (define %s-v '%s)))" % (name, name, imports_decl, name, name)
+    healthy = "(define-library (%s) (export %s-v) %s (begin (define %s-v '%s)))" % (name, name, imports_decl, name, name)
+    if kind == "second-in-file":
+        # the source holds another library first: the one asked for is searched for by name
+        return ("(define-library (%s extra) (export %s-x) (import (scheme base)) (begin (define %s-x 'extra)))\n%s"
+                % (name, name, name, healthy))
+    if kind == "after-other-forms":
+        return "; a comment\n(define stray-%s 1)\n'datum\n%s\n(define later-%s 2)" % (name, healthy, name)
+    if kind == "defined-twice":
+        return ("%s\n(define-library (%s) (export %s-v) (import (scheme base)) (begin (define %s-v 'second-definition)))"
+                % (healthy, name, name, name))
     if kind == "faulting":
         return "(define-library (%s) (export %s-v) %s (begin (define %s-v (car '()))))" % (name, name, imports_decl, name)
     if kind == "faulting-early":
@@ -1286,7 +1425,27 @@ def encapsulation_case(rng):
             imports = "(import (scheme base) (verif tick)%s)" % "".join(" (%s)" % d for d in deps)
         else:
             imports = "(import (scheme base)%s)" % "".join(" (%s)" % d for d in deps)
-        text = "(define-library (%s) (export %s) %s (begin %s))" % (name, " ".join(exports), imports, " ".join(body))
+        # a name the library IMPORTS, then defines itself, and exports: importers get the library's own definition
+        if rng.random() < 0.5:
+            shadowed = rng.choice(["abs", "max", "list"] + ["next-%s" % d for d in deps])
+            body.append("(define (%s . r) (cons 'own-%s r))" % (shadowed, name))
+            exports.append("(rename %s own-%s)" % (shadowed, name) if rng.random() < 0.7 or shadowed.startswith("next-") else shadowed)
+            aliases.append("(own-%s 1 2)" % name if "(rename %s own-%s)" % (shadowed, name) in exports else "(%s 1 2)" % shadowed)
+        # the declarations in any order that puts the imports before the body; exports and body possibly split
+        decls = [imports]
+        ex = list(exports)
+        layout = rng.choice(["export-first", "export-middle", "export-last", "split"])
+        if layout == "split" and len(ex) >= 2 and len(body) >= 2:
+            cut_e, cut_b = rng.randint(1, len(ex) - 1), rng.randint(1, len(body) - 1)
+            decls = ["(export %s)" % " ".join(ex[:cut_e]), imports, "(begin %s)" % " ".join(body[:cut_b]),
+                     "(export %s)" % " ".join(ex[cut_e:]), "(begin %s)" % " ".join(body[cut_b:])]
+        elif layout == "export-middle":
+            decls = [imports, "(export %s)" % " ".join(ex), "(begin %s)" % " ".join(body)]
+        elif layout == "export-last":
+            decls = [imports, "(begin %s)" % " ".join(body), "(export %s)" % " ".join(ex)]
+        else:
+            decls = ["(export %s)" % " ".join(ex), imports, "(begin %s)" % " ".join(body)]
+        text = "(define-library (%s) %s)" % (name, " ".join(decls))
         libs.append((name, text, deps, ext_peek, aliases))
     forms = []
     order = list(names)
@@ -1340,6 +1499,21 @@ REPL_SPECIAL = [
 ]
 
 
+# something established by one submission and relied on by LATER ones (every kind of thing a submission can leave behind)
+REPL_THREADS = [
+    ("(define-syntax swap! (syntax-rules () ((swap! a b) (let ((tmp a)) (set! a b) (set! b tmp)))))",
+     ["(define sx 1)", "(define sy 2)", "(swap! sx sy)", "(list sx sy)"]),
+    ("(define-syntax my-or (syntax-rules () ((my-or) #f) ((my-or e) e) ((my-or e r ...) (let ((t e)) (if t t (my-or r ...))))))",
+     ["(my-or #f 7)", "(my-or)", "(list (my-or #f #f) (my-or 1 2))"]),
+    ("(define-syntax twice (syntax-rules () ((twice e) (begin e e))))",
+     ["(define tw 0)", "(twice (set! tw (+ tw 1)))", "tw", "(define-syntax twice (syntax-rules () ((twice e) (list e e))))", "(twice tw)"]),
+    ("(define kept (vector 1 2))", ["(vector-set! kept 0 'changed)", "kept", "(set! kept 5)", "kept"]),
+    ("(define (later-fn x) (helper-fn x))", ["(define (helper-fn x) (* x 2))", "(later-fn 21)"]),
+    ("(import (only (scheme base) car))", ["(car '(1 2))"]),
+    ("(define counter-thread ((lambda (n) (lambda () (set! n (+ n 1)) n)) 0))", ["(counter-thread)", "(counter-thread)", "(list (counter-thread))"]),
+]
+
+
 def repl_session(rng, nforms=6):
     g = Gen(rng, ticks=False, derived=True)
     forms, _ = g.program(nforms, 2)
@@ -1348,6 +1522,17 @@ def repl_session(rng, nforms=6):
         out.append(f)
         if rng.random() < 0.5:
             out.append(rng.choice(REPL_SPECIAL))
+    if rng.random() < 0.7:
+        first, later = rng.choice(REPL_THREADS)
+        pos = rng.randint(0, len(out))
+        out.insert(pos, first)
+        for u in later:
+            pos = rng.randint(pos + 1, len(out))
+            out.insert(pos, u)
+            if rng.random() < 0.3:
+                # a failing submission in between must not disturb what was established
+                out.insert(pos, rng.choice(["(car '())", "(undefined-thing)", "(if)", ")"]))
+                pos += 1
     return out
 
 
@@ -1425,6 +1610,26 @@ def file_program(rng, nforms=8):
     return forms, idx, kind
 
 
+def boundary_file(rng, boundary, ch, back, eol):
+    """a valid program of more than `boundary` bytes in which the UTF-8 encoding of character `ch` (or the CR LF pair)
+    begins `back` bytes before byte offset `boundary`: a reader that decodes the file block by block splits it there"""
+    pre = '(import (scheme base) (scheme write))' + eol + '(display "start ")' + eol
+    head = '(display "x'
+    want = boundary - back - len(head.encode()) - len(pre.encode())
+    pad = ""
+    while want > 0:
+        room = min(want, rng.randint(30, 90))
+        if want - room < len(eol) + 2 and want != room:
+            room = want
+        if room < len(eol) + 1:
+            raise ValueError("no room")
+        pad += ";" + "p" * (room - 1 - len(eol)) + eol
+        want -= room
+    text = pre + pad + head + ch + 'y")' + eol + '(display (+ 1 2))' + eol + '(display "\u00e9nd")' + eol
+    assert text.encode()[boundary - back:boundary - back + len(ch.encode())] == ch.encode()
+    return text
+
+
 def render_file(rng, forms, eol, final_newline):
     parts = []
     for f in forms:
@@ -1448,6 +1653,12 @@ REAL_BITS = ["00000000", "80000000", "3f800000", "bf800000", "3fc00000", "3dcccc
              "3a83126f", "3c23d70a", "41200000", "42c80000", "447a0000", "3f000000", "3e800000", "40490fdb", "402df854"]
 
 
+# characters a text-processing layer is tempted to treat specially: byte order mark, no-break and zero-width spaces,
+# line / paragraph separators, next-line, a combining mark, letters outside ASCII and outside the BMP
+UNUSUAL_CHARS = ["\ufeff", "\u00a0", "\u200b", "\u2028", "\u2029", "\u0085", "\u0301", "\u00e9", "\u03bb", "\u4e2d",
+                 "\U0001f600", "\u00ad", "\ufffd", "\u007f"]
+
+
 def readable_value(rng, depth, defs):
     """returns an expression; reals are bound to variables via DEFNUM lines collected in defs"""
     k = rng.random()
@@ -1469,7 +1680,7 @@ def readable_value(rng, depth, defs):
         if a < 0.72:
             return rng.choice(["#t", "#f"])
         if a < 0.82:
-            return "#\\" + rng.choice(list("azAZ09!?*+-/<=>_~()\";'|#") + ["x", " ", " "])
+            return "#\\" + rng.choice(list("azAZ09!?*+-/<=>_~()\";'|#") + ["x", " ", " "] + UNUSUAL_CHARS)
         return "'" + rng.choice(["a", "foo", "list->vector", "x1", "!", "<=?", "a.b", "+", "-", "...", "->x", "set!"])
     if k < 0.7:
         items = [readable_value(rng, depth - 1, defs) for _ in range(rng.randint(0, 6))]
@@ -1569,12 +1780,15 @@ def located_fault_program(rng, kind, context, template=None, fault=None):
     g = Gen(rng, ticks=False, derived=True)
     forms, _ = g.program(rng.randint(0, 5), 2)
     forms.append("(define fa2 (lambda (a b) (+ a b)))")
+    # identifiers that begin with a sign or a dot take another path through the lexer
+    forms.append("(define ->n 5) (define -neg 2) (define +pos 3)")
     expr, marker = fault if fault is not None else rng.choice(LOC_FAULTS[kind])
     if context == "direct":
         f = expr
     elif context == "nested":
         f = rng.choice(["(list 1 %s 3)", "(+ 1 (if #t %s 0))", "(vector (cons 1 %s))", "(list \"two\nlines\" %s)",
-                        "(cons \"a\\\\\nb\tc\" (list %s))"]) % expr
+                        "(cons \"a\\\\\nb\tc\" (list %s))", "(list ->n -neg +pos %s)", "(list '... '->x '-y (+ ->n %s))",
+                        "(list (- -neg ->n) '(... ...) %s)", "(list -1/2 +5 -7.25 1e3 #\\x %s)"]) % expr
     elif context == "lambda-call":
         f = rng.choice(["((lambda (z) %s) 1)", "((lambda () 1 %s))", "((lambda (z) (if z %s 0)) #t)"]) % expr
     elif context == "apply":
@@ -1830,6 +2044,79 @@ def list_call(rng):
     except LibError:
         # regenerate the text for the error case
         return list_call_error(rng, name)
+
+
+LONG_LENGTHS = [31, 32, 33, 63, 64, 65, 99, 100, 101, 102, 103, 127, 128, 129, 199, 200, 201, 255, 256, 257]
+
+
+def long_list_call(rng, lengths=None):
+    """the list procedures on LONG proper lists of distinct integers (lengths around the thresholds an implementation
+    might treat specially), with order-sensitive procedure arguments. A long result is observed at its first element, at
+    seven random positions and at its last pair (the canonical printer stops at nesting depth 200).
+    returns (text, expected, name)"""
+    n = rng.choice(lengths or LONG_LENGTHS)
+    items = list(range(1, n + 1))
+    l = PyList.from_items(items)
+    lit = "'" + PyList.render(l)
+
+    def sample(expr, res):
+        m = len(res)
+        ks = sorted(set(rng.randrange(m) for _ in range(7)) | {0, m - 1, min(m - 1, 99), min(m - 1, 100), min(m - 1, 101)})
+        text = "((lambda (r) (list %s (car (last-pair r)) (null? (cdr (last-pair r))))) %s)" % (
+            " ".join("(list-ref r %d)" % k for k in ks), expr)
+        return text, PyList.canon(PyList.from_items([res[k] for k in ks] + [res[-1], True]))
+
+    name = rng.choice(["fold-right", "fold-right", "fold-left", "map", "for-each", "append", "list-tail", "list-ref", "last-pair",
+                       "memv", "list?", "equal?", "apply", "make-list"])
+    if name == "fold-right":
+        if rng.random() < 0.5:
+            t, w = sample("(fold-right cons '() %s)" % lit, items)
+            return t, w, name
+        acc = 0
+        for x in reversed(items):
+            acc = x - acc
+        return "(fold-right - 0 %s)" % lit, PyList.canon(acc), name
+    if name == "fold-left":
+        t, w = sample("(fold-left cons '() %s)" % lit, list(reversed(items)))
+        return t, w, name
+    if name == "map":
+        t, w = sample("(map (lambda (z) (tick 7 (+ z 1))) %s)" % lit, [x + 1 for x in items])
+        return t, w + " ticks=%d" % n, name
+    if name == "for-each":
+        return "(begin (for-each (lambda (z) (tick 7 z)) %s) 'done)" % lit, "(sym 646f6e65) ticks=%d" % n, name
+    if name == "append":
+        k = rng.randint(0, n)
+        a, b = PyList.from_items(items[:k]), PyList.from_items(items[k:])
+        t, w = sample("(append '%s '%s)" % (PyList.render(a), PyList.render(b)), items)
+        return t, w, name
+    if name == "list-tail":
+        k = rng.choice([0, n // 2, n - 2, n - 1])
+        t, w = sample("(list-tail %s %d)" % (lit, k), items[k:])
+        return t, w, name
+    if name == "list-ref":
+        k = rng.choice([0, n // 2, n - 2, n - 1])
+        return "(list-ref %s %d)" % (lit, k), PyList.canon(items[k]), name
+    if name == "last-pair":
+        return "(last-pair %s)" % lit, PyList.canon(PyList.from_items([n])), name
+    if name == "memv":
+        k = rng.choice([1, n // 2, n - 1, n, n + 1])
+        if k > n:
+            return "(memv %d %s)" % (k, lit), PyList.canon(False), name
+        t, w = sample("(memv %d %s)" % (k, lit), items[k - 1:])
+        return t, w, name
+    if name == "list?":
+        return "(list? %s)" % lit, PyList.canon(True), name
+    if name == "equal?":
+        other = list(items)
+        same = rng.random() < 0.5
+        if not same:
+            other[rng.choice([0, n // 2, n - 1])] = 0
+        return "(equal? %s '%s)" % (lit, PyList.render(PyList.from_items(other))), PyList.canon(same), name
+    if name == "apply":
+        t, w = sample("(apply list 0 %s)" % lit, [0] + items)
+        return t, w, name
+    t, w = sample("(make-list %d 'x)" % n, ["x"] * n)
+    return t, w, "make-list"
 
 
 def list_call_error(rng, name):
